@@ -1,116 +1,281 @@
 """C17 — arrays are immutable under sharing (vector/src/{vector,slice}.rs)."""
 import os
+import re
 from vlib import core
 
 META = {
-    "claimed": False,
     "harness_bins": ["c17"],
     "extract": "C17.v",
-    "technique": "Coq proof: tree model of Vector/Slice refines lists for every operation history (wf invariant + list refinement, any branching factor >= 2); model tied to the Rust crate by differential replay of clone/mutate histories (extracted OCaml model vs Rust, every live handle compared after every operation)",
-    "level_text": "Theorems (coq/Props/C17.v) quantify over every operation history, handle family and branching factor B>=2: the implementation-shaped tree model keeps check_invariants and each handle's contents equal to an independent list. The model is hand-written; the tie to vector.rs/slice.rs is the correspondence run (same histories on the extracted model and on the Rust crate built from /repo, B in {2,4,8,32}), which also compares each Rust handle with a Vec twin and calls check_invariants().",
-    "level_note": "Trusted: Coq kernel; extraction (ExtrOcamlBasic only); the hand-written model's reading of vector.rs (value-level: Rc sharing/make_mut is modelled as value copy, which is what safe Rust guarantees for a crate without unsafe); imbl-sized-chunks; the history generator. Not covered: IterMut/into_iter variants beyond what Slice::into_iter exercises, serde impls.",
+    "technique": "Coq proof: tree model of Vector/Slice refines lists for every operation history (wf invariant + list refinement, any branching factor >= 2); model tied to the Rust crate by differential replay of clone/mutate histories (extracted OCaml model vs Rust, contents and tree representation of every live handle compared after every operation)",
+    "level_text": "Proved in Coq for every branching factor B >= 2 (not only powers of two), every element type and every operation history (coq/Props/C17.v, 27 theorems, closed under the global context): "
+                  "C17_history_refines - for every op list over a family of vector and slice handles (new/from/clone/drop/push/pop/set/get/truncate/extend/iter_from, slice push/pop/set/get/slice/extend/extend-from-slice/iter) the implementation-shaped run irun and the run srun of independent lists return the same result at every step (including exactly the same panics), and after every step every live handle satisfies the Prop-level invariant wf/swf and denotes (to_list / sl_list) the list the specification holds for it; so an operation through one handle never changes what another handle denotes (C17_frame_vec, C17_frame_slice). "
+                  "wf (uniform depth = height, packed left, chunks of 1..B entries with every chunk off the right edge full, interior root with >= 2 children, vlen = number of elements, height = height_for_length vlen) is established by new and preserved by push/pop/set/truncate/extend, none of which panics in contract, and each refines the list operation (++[x], last/removelast, nth_error, list_set, firstn, ++, skipn); wf implies the crate's check_invariants; slice operations refine the window firstn (end-start) (skipn start l); shifts/masks equal div/mod for B = 2^k (C17_bit_ops_agree). "
+                  "The model is hand-written from vector.rs/slice.rs; the tie to the code is the correspondence run: the same histories are executed by the extracted model and by the Rust crate built from /repo for B in {2,4,8,32}, and after every operation the result, the contents and the exact tree representation (node structure, chunk contents, length, height, start, end, read off the derived Debug output) of every live handle are compared; independently every Rust handle is compared with a Vec twin and check_invariants() is called (direct oracle).",
+    "level_note": "Trusted: Coq kernel; extraction (ExtrOcamlBasic only); the hand-written model's reading of vector.rs/slice.rs (value-level: Rc sharing/make_mut is modelled as value copy, which is what safe Rust guarantees for a crate without unsafe); imbl-sized-chunks; the derived Debug impls used to read the Rust trees; the history generator. The fuel of vextend_loop and the iterator-as-list view of Extend are part of the model (proved sufficient: extend never returns None). Not covered: IterMut / iter_mut_starting_at, serde impls, Hash/Eq impls, usize overflow (lengths are unbounded nat in the model). Note: the crate's own check_invariants()/is_packed is weaker than wf (it ignores right_most below an interior node; Vector/Examples.v: check_invariants_incomplete), so the Vec twin and the tree comparison carry the direct oracle.",
 }
 
 ELEMS = 10
+BS = [2, 2, 4, 4, 8, 32]
+MAXLEN = {2: 300, 4: 300, 8: 600, 32: 1100}
 
 
-def gen_history(rng, B, maxlen, heavy):
-    """One history.  Mostly in-contract operations; ~3% out-of-contract (panicking) ones."""
-    ops = []
-    nv, ns = 0, 0            # number of handles created
-    vl, sl = {}, {}          # live handle -> current length (tracked to aim indices)
-    n = rng.range(3, maxlen)
-    for _ in range(n):
-        use_v = rng.chance(1, 2) if (nv or ns) else rng.chance(1, 2)
-        live = vl if use_v else sl
+def hfl(B, n):
+    """height_for_length"""
+    m = max(n - 1, 1)
+    h = 0
+    while m >= B:
+        m //= B
+        h += 1
+    return h
+
+
+def boundaries(B, cap):
+    out = set()
+    p = 1
+    while p <= cap + 1:
+        for d in (-1, 0, 1, 2):
+            if 0 <= p + d <= cap:
+                out.add(p + d)
+        for m in (2, 3):
+            if m < B and 0 <= m * p + 1 <= cap:
+                out.add(m * p)
+                out.add(m * p + 1)
+        p *= B
+    return sorted(out)
+
+
+class Gen:
+    """One history with the generator's own bookkeeping of lengths (to aim indices and lengths at
+    the interesting places) and of the structural events it provokes."""
+
+    def __init__(self, rng, B, profile, nops):
+        self.rng, self.B, self.profile, self.nops = rng, B, profile, nops
+        self.ops = []
+        self.vl = {}          # live vector handle -> length
+        self.sl = {}          # live slice handle -> (start, end, backing length)
+        self.nv = self.ns = 0
+        self.ev = {}
+        self.maxh = 0
+        self.cap = MAXLEN[B]
+        self.bnd = boundaries(B, self.cap)
+
+    def event(self, k):
+        self.ev[k] = self.ev.get(k, 0) + 1
+
+    def elems(self, n):
+        return ".".join(str(self.rng.below(ELEMS)) for _ in range(n))
+
+    def note_len(self, old, new):
+        B = self.B
+        ho, hn = hfl(B, old), hfl(B, new)
+        self.maxh = max(self.maxh, hn)
+        return ho, hn
+
+    def aim_len(self, cur):
+        r, B = self.rng, self.B
+        c = r.below(10)
+        if c < 4:
+            return r.choice(self.bnd)
+        if c < 6:
+            return max(0, cur + r.choice([-2, -1, 0, 1, 2]))
+        if c < 7:
+            return cur // 2
+        if c < 8:
+            return r.choice([0, 1, B - 1, B, B + 1])
+        return r.below(cur + 2)
+
+    def new_handle(self, use_v):
+        r, B = self.rng, self.B
         p = "v" if use_v else "s"
-        if not live or rng.chance(1, 14):
-            if rng.chance(1, 2):
-                ops.append(p + "n")
-                ln = 0
-            else:
-                ln = rng.choice([0, 1, B - 1, B, B + 1, B * B, B * B + 1, rng.range(0, 3 * B)]) if heavy else rng.range(0, 2 * B + 1)
-                ln = min(ln, 1100)
-                ops.append(p + "f:" + ".".join(str(rng.below(ELEMS)) for _ in range(ln)))
-            if use_v:
-                vl[nv] = ln
-                nv += 1
-            else:
-                sl[ns] = ln
-                ns += 1
-            continue
-        k = rng.choice(sorted(live))
-        ln = live[k]
-        bad = rng.chance(1, 30)
-        c = rng.below(100)
-        if c < 14:
-            ops.append("%sc%d" % (p, k))
-            if use_v:
-                vl[nv] = ln
-                nv += 1
-            else:
-                sl[ns] = ln
-                ns += 1
-        elif c < 17 and len(live) > 1:
-            ops.append("%sd%d" % (p, k))
-            del live[k]
-        elif c < 40:
-            ops.append("%sp%d:%d" % (p, k, rng.below(ELEMS)))
-            live[k] = ln + 1
-        elif c < 52:
-            ops.append("%so%d" % (p, k))
-            live[k] = max(0, ln - 1)
-        elif c < 62:
-            i = ln + rng.below(3) if (bad or ln == 0) else rng.below(ln)
-            ops.append("%ss%d:%d:%d" % (p, k, i, rng.below(ELEMS)))
-        elif c < 70:
-            i = rng.below(ln + 2)
-            ops.append("%sg%d:%d" % (p, k, i))
-        elif c < 80:
-            if use_v:
-                nlen = rng.choice([0, 1, B, B + 1, ln // 2, max(0, ln - 1), ln, ln + 1, rng.below(ln + 1)])
-                ops.append("vt%d:%d" % (k, nlen))
-                live[k] = min(ln, nlen)
-            else:
-                a = rng.below(ln + 1)
-                b = rng.range(a, ln)
-                if bad:
-                    b = ln + 1 + rng.below(2)
-                ops.append("sl%d:%d:%d" % (k, a, b))
-                if b <= ln:
-                    live[k] = b - a
-        elif c < 92:
-            m = rng.choice([0, 1, 2, B - 1, B, B + 1, 2 * B + 1, B * B - ln if B * B > ln else 3, rng.range(0, 3 * B)])
-            m = max(0, min(m, 600))
-            if not use_v and rng.chance(1, 3) and len(sl) > 0:
-                j = rng.choice(sorted(sl))
-                ops.append("sx%d:%d" % (k, j))
-                live[k] = ln + sl[j]
-            else:
-                ops.append("%se%d:%s" % (p, k, ".".join(str(rng.below(ELEMS)) for _ in range(m))))
-                live[k] = ln + m
+        if r.chance(1, 4):
+            self.ops.append(p + "n")
+            ln = 0
         else:
-            if use_v:
-                i = ln + 1 + rng.below(2) if bad else rng.below(ln + 1)
-                ops.append("vi%d:%d" % (k, i))
+            if self.profile == "small":
+                ln = r.range(0, 3 * B + 1)
             else:
-                ops.append("si%d" % k)
-    return "%d %s" % (B, ",".join(ops))
+                ln = min(self.aim_len(r.choice(self.bnd)), self.cap)
+            self.ops.append(p + "f:" + self.elems(ln))
+            self.note_len(0, ln)
+        if use_v:
+            self.vl[self.nv] = ln
+            self.nv += 1
+        else:
+            self.sl[self.ns] = (0, ln, ln)
+            self.ns += 1
+
+    def step(self):
+        r, B = self.rng, self.B
+        pv = {"small": 1, "deep": 3, "slice": 1, "mixed": 2}[self.profile]
+        use_v = r.chance(pv, 4)
+        live = self.vl if use_v else self.sl
+        if not live or r.chance(1, 16):
+            self.new_handle(use_v)
+            return
+        p = "v" if use_v else "s"
+        k = r.choice(sorted(live))
+        if use_v:
+            ln = self.vl[k]
+            st = en = bl = None
+        else:
+            st, en, bl = self.sl[k]
+            ln = en - st
+        bad = r.chance(1, 30)
+        c = r.below(100)
+        if c < 12:                                    # clone
+            self.ops.append("%sc%d" % (p, k))
+            if use_v:
+                self.vl[self.nv] = ln
+                self.nv += 1
+            else:
+                self.sl[self.ns] = (st, en, bl)
+                self.ns += 1
+        elif c < 15 and len(live) > 1:                # drop
+            self.ops.append("%sd%d" % (p, k))
+            del live[k]
+        elif c < 33:                                  # push
+            self.ops.append("%sp%d:%d" % (p, k, r.below(ELEMS)))
+            if use_v:
+                ho, hn = self.note_len(ln, ln + 1)
+                if hn > ho:
+                    self.event("push_adds_level")
+                self.vl[k] = ln + 1
+            else:
+                if en < bl:
+                    self.event("slice_push_truncates_shared_tail")
+                    if hfl(B, en) < hfl(B, bl):
+                        self.event("slice_push_truncate_lowers_height")
+                self.note_len(en, en + 1)
+                self.sl[k] = (st, en + 1, en + 1)
+        elif c < 47:                                  # pop
+            self.ops.append("%so%d" % (p, k))
+            if use_v:
+                if ln > 0:
+                    ho, hn = self.note_len(ln, ln - 1)
+                    if hn < ho:
+                        self.event("pop_collapses_root")
+                    if ln == 1:
+                        self.event("pop_to_empty")
+                    self.vl[k] = ln - 1
+                else:
+                    self.event("pop_on_empty")
+            else:
+                if ln > 0:
+                    if en < bl:
+                        self.event("slice_pop_truncates_shared_tail")
+                    if hfl(B, en - 1) < hfl(B, en):
+                        self.event("pop_collapses_root")
+                    self.sl[k] = (st, en - 1, en - 1)
+                else:
+                    self.event("pop_on_empty")
+        elif c < 57:                                  # set
+            if bad or ln == 0:
+                i = ln + r.below(3)
+                self.event("set_out_of_bounds")
+            else:
+                i = r.choice([0, ln - 1, r.below(ln), min(ln - 1, r.choice(self.bnd))])
+            self.ops.append("%ss%d:%d:%d" % (p, k, i, r.below(ELEMS)))
+        elif c < 66:                                  # get
+            i = r.choice([r.below(ln + 2), ln, ln + B, min(ln, r.choice(self.bnd)), (bl if bl is not None else ln)])
+            if i >= ln:
+                self.event("get_out_of_bounds")
+            self.ops.append("%sg%d:%d" % (p, k, i))
+        elif c < 78:
+            if use_v:                                 # truncate
+                n = self.aim_len(ln)
+                self.ops.append("vt%d:%d" % (k, n))
+                if n < ln:
+                    ho, hn = self.note_len(ln, n)
+                    if hn < ho:
+                        self.event("truncate_lowers_height")
+                        if ho - hn >= 2:
+                            self.event("truncate_lowers_height_by_2+")
+                    if n == 0:
+                        self.event("truncate_to_0")
+                    self.vl[k] = n
+                else:
+                    self.event("truncate_noop")
+            else:                                     # slice
+                a = r.below(ln + 1)
+                b = r.range(a, ln)
+                if r.chance(1, 3) and ln > 0:
+                    b = min(ln, max(a, r.choice(self.bnd) - st)) if r.chance(1, 2) else ln
+                if bad:
+                    b = ln + 1 + r.below(2)
+                    if r.chance(1, 2):
+                        a, b = b, max(0, b - 1 - r.below(2))
+                self.ops.append("sl%d:%d:%d" % (k, a, b))
+                if a <= b <= ln:
+                    self.sl[k] = (st + a, st + b, bl)
+                    self.event("slice")
+                else:
+                    self.event("slice_out_of_contract")
+        elif c < 92:                                  # extend
+            base = ln if use_v else en
+            tgt = self.aim_len(base + r.below(3 * B + 2))
+            m = max(0, min(tgt - base if tgt > base else r.choice([0, 1, 2, B - 1, B, B + 1, 2 * B + 1]), self.cap - base, 700))
+            if not use_v and r.chance(1, 3):
+                j = r.choice(sorted(self.sl))
+                sj = self.sl[j]
+                m = sj[1] - sj[0]
+                if base + m > self.cap + 700:
+                    return
+                self.ops.append("sx%d:%d" % (k, j))
+                self.event("extend_from_slice" + ("_self" if j == k else ""))
+            else:
+                self.ops.append("%se%d:%s" % (p, k, self.elems(m)))
+            ho, hn = self.note_len(base, base + m)
+            if hn - ho >= 2:
+                self.event("extend_across_2+_levels")
+            elif hn > ho:
+                self.event("extend_adds_level")
+            if m == 0:
+                self.event("extend_empty")
+            if use_v:
+                self.vl[k] = ln + m
+            else:
+                if en < bl:
+                    self.event("slice_extend_truncates_shared_tail")
+                self.sl[k] = (st, en + m, en + m)
+        else:                                         # iterate
+            if use_v:
+                if bad:
+                    i = ln + 1 + r.below(2)
+                    self.event("iter_from_out_of_bounds")
+                else:
+                    i = r.choice([0, ln, r.below(ln + 1), min(ln, r.choice(self.bnd))])
+                self.ops.append("vi%d:%d" % (k, i))
+            else:
+                self.ops.append("si%d" % k)
+
+    def run(self):
+        for _ in range(self.nops):
+            self.step()
+        return "%d %s" % (self.B, ",".join(self.ops))
 
 
-def exhaustive_small(maxlen):
-    """All histories of length <= maxlen over a tiny alphabet, B = 2 (thorough tier)."""
-    alpha = ["sp0:1", "sp1:2", "sc0", "so0", "so1", "sl0:1:2", "sl0:0:1", "ss0:0:3", "se0:1.2.3", "sx1:0", "sp0:0"]
+def gen_history(rng, B, profile, nops):
+    g = Gen(rng, B, profile, nops)
+    return g.run(), g.ev, g.maxh
+
+
+def exhaustive_small(tier):
+    """All histories up to a given depth over small op alphabets, B = 2 (thorough tier)."""
     out = []
 
-    def rec(prefix, depth):
+    def rec(init, alpha, prefix, depth):
         if depth == 0:
             return
         for a in alpha:
             h = prefix + [a]
-            out.append("2 sf:0.1.2," + ",".join(h))
-            rec(h, depth - 1)
-    rec([], maxlen)
+            out.append("2 " + init + "," + ",".join(h))
+            rec(init, alpha, h, depth - 1)
+    # slices over a shared 3-element vector (handles s0, s1 = clone made inside the history)
+    rec("sf:0.1.2", ["sp0:1", "sp1:2", "sc0", "so0", "so1", "sl0:1:2", "sl0:0:1", "ss0:0:3", "se0:1.2.3", "sx1:0", "sg1:1"], [], 5)
+    # vectors around the height-1/height-2 boundary (5 elements, B = 2)
+    rec("vf:0.1.2.1.0", ["vp0:1", "vc0", "vo0", "vo1", "vt0:4", "vt0:2", "vt1:1", "ve0:1.2.0", "vs0:3:2", "vp1:2", "vg1:4"], [], 5)
+    # a deeper one: 9 elements (height 3), depth 4
+    rec("vf:0.1.2.0.1.2.0.1.2,vc0", ["vo0", "vt0:8", "vt0:4", "vt0:0", "ve0:1.1.1.1.1.1.1.1", "vp0:2", "vo1", "vt1:5", "vi1:3"], [], 4)
     return out
 
 
@@ -119,8 +284,26 @@ def corpus():
     res = []
     if os.path.isdir(p):
         for f in sorted(os.listdir(p)):
-            res += [l.strip() for l in open(os.path.join(p, f)) if l.strip() and not l.startswith("#")]
+            if f.endswith(".case"):
+                res += [l.strip() for l in open(os.path.join(p, f)) if l.strip() and not l.startswith("#")]
     return res
+
+
+SHAPE = re.compile(r"~[^| ]*")
+
+
+def strip_shape(s):
+    """drop the representation digests/texts: what remains is results + contents, comparable with the list spec"""
+    return SHAPE.sub("", s)
+
+
+def first_diff_op(case, a, c):
+    ops = case.split(" ", 1)[1].split(",")
+    xa, xc = a.split(" "), c.split(" ")
+    for i, (p, q) in enumerate(zip(xa, xc)):
+        if p != q:
+            return ops[i][:2] if i < len(ops) else "end"
+    return "len"
 
 
 def compare(ck, cases, impl_out, model_out, spec_out):
@@ -134,35 +317,26 @@ def compare(ck, cases, impl_out, model_out, spec_out):
                 ck.hist("ops", tok[:2])
         if "panic" in a:
             ck.count("histories_with_out_of_contract_op")
+        ck.count("direct_oracle_handle_checks", a.count("=") - a.count("=["))
         direct = ("!TWIN" in a) or ("!INV" in a) or a == "PANIC-UNCAUGHT"
+        sa = strip_shape(a)
         if direct:
             # the implementation disagrees with an independent Vec twin / breaks its own invariants
-            ck.violation("twin:" + first_diff_op(case, a, c), "Rust Vector/Slice differs from independent Vec copies (or check_invariants fails)",
+            ck.violation("twin:" + first_diff_op(case, sa, c), "Rust Vector/Slice differs from independent Vec copies (or check_invariants fails)",
                          {"case": case, "impl": a, "spec": c, "how_to_replay": "./verif check C17 --replay <this file>"})
+        elif sa != c:
+            # results/contents differ from the run on independent lists: the property fails on the implementation
+            ck.violation("spec:" + first_diff_op(case, sa, c), "Rust Vector/Slice history differs from independent lists",
+                         {"case": case, "impl": a, "model": b, "spec": c, "how_to_replay": "./verif check C17 --replay <this file>"})
         elif a != b:
-            # model and implementation disagree: is the property itself broken (impl vs list spec)?
-            sa = strip_oc(a)
-            if sa != strip_oc(c):
-                ck.violation("spec:" + first_diff_op(case, a, c), "Rust Vector/Slice history differs from independent lists",
-                             {"case": case, "impl": a, "model": b, "spec": c})
-            else:
-                ck.obligation("correspondence:model-vs-rust", "correspondence", False,
-                              "case %s\nimpl  %s\nmodel %s" % (case, a[:600], b[:600]))
+            # contents agree with the lists but the representation (or a result) differs from the model
+            ck.obligation("correspondence:model-vs-rust", "correspondence", False,
+                          "case %s\nfirst differing op: %s\nimpl  %s\nmodel %s" % (case, first_diff_op(case, a, b), a[-700:], b[-700:]))
         if "!INV" in b:
-            ck.obligation("model:check_invariants", "correspondence", False, "model breaks wf on " + case)
-
-
-def strip_oc(s):
-    return s
-
-
-def first_diff_op(case, a, c):
-    ops = case.split(" ", 1)[1].split(",")
-    xa, xc = a.split(" "), c.split(" ")
-    for i, (p, q) in enumerate(zip(xa, xc)):
-        if p != q:
-            return ops[i][:2] if i < len(ops) else "end"
-    return "len"
+            ck.obligation("model:check_invariants", "correspondence", False, "model breaks check_invariants on " + case)
+        if strip_shape(b) != c:
+            ck.obligation("model:refines-spec (theorem C17_history_refines, executed)", "correspondence", False,
+                          "extracted irun and srun differ on " + case)
 
 
 def run_cases(ck, cases, exe_impl, exe_model):
@@ -175,38 +349,67 @@ def run_cases(ck, cases, exe_impl, exe_model):
     return impl_out, model_out, spec_out
 
 
+def generate(ck):
+    rng = core.SplitMix64(ck.seed * 1000003 + 17)
+    cases = []
+    n = 3000 if ck.tier == "quick" else 60000
+    for i in range(n):
+        B = rng.choice(BS)
+        profile = rng.weighted([("small", 3), ("deep", 4), ("slice", 3), ("mixed", 2)])
+        long_ = rng.chance(1, 12)
+        nops = rng.range(3, 400 if long_ else 40)
+        if ck.tier == "thorough" and rng.chance(1, 200):
+            nops = rng.range(400, 1500)
+        h, ev, maxh = gen_history(rng.fork(), B, profile, nops)
+        cases.append(h)
+        ck.hist("profile", profile)
+        ck.hist("max_height_reached_B%d" % B, maxh)
+        for k, v in ev.items():
+            ck.hist("structural_events", k, v)
+            ck.hist("histories_with_event", k)
+    return cases
+
+
 def run(ck):
-    ck.coq("Props.C17", clean=(ck.tier == "thorough"))
+    ck.coq("Props.C17", extra_targets=["Vector/Examples.vo"], clean=(ck.tier == "thorough"))
     ok = ck.harness(["c17"])
     exe_model = ck.model("C17.v")
     if not ok or not exe_model:
         return
     exe_impl = core.harness_bin("c17")
-    rng = core.SplitMix64(ck.seed * 1000003 + 17)
-    cases = corpus()
-    n = 2000 if ck.tier == "quick" else 50000
-    for i in range(n):
-        B = rng.choice([2, 2, 4, 4, 8, 32])
-        long_ = rng.chance(1, 12)
-        cases.append(gen_history(rng.fork(), B, 400 if long_ else 40, heavy=rng.chance(1, 2)))
+    cor = corpus()
+    cases = cor + generate(ck)
+    ck.coverage["corpus_cases"] = len(cor)
     if ck.tier == "thorough":
-        ex = exhaustive_small(5)
+        ex = exhaustive_small(ck.tier)
         ck.coverage["exhaustive_small_histories"] = len(ex)
         cases += ex
     impl_out, model_out, spec_out = run_cases(ck, cases, exe_impl, exe_model)
     for c, a in list(zip(cases, impl_out))[:3]:
-        ck.sample({"history": c[:300], "impl_trace": a[:300]})
+        ck.sample({"history": c[:300], "impl_trace": a[:400]})
     ck.coverage["traces_validated_against_impl"] = len(cases)
-    ck.coverage["rule"] = "history = seeded random op sequence over vector and slice handles (clone/drop/push/pop/set/get/truncate/slice/extend/extend-from/iter), B in {2,4,8,32}; non-trivial = contains a clone and >= 4 ops; distinct by exact text"
+    ck.coverage["comparisons"] = "per operation: result; per live handle: contents digest (Rust vs model vs list spec), tree-representation digest (Rust vs model), Vec twin + check_invariants() (Rust only)"
+    ck.coverage["rule"] = ("history = seeded random op sequence over vector and slice handles (new/from/clone/drop/push/pop/set/get/truncate/slice/extend/extend-from-slice/iter), "
+                           "B in {2,4,8,32}; profiles small/deep/slice/mixed aim lengths and indices at B^k-1, B^k, B^k+1, m*B^k(+1); ~3% out-of-contract ops; "
+                           "non-trivial = contains a clone and >= 4 ops; distinct by exact text; thorough adds exhaustive histories over three small alphabets (B=2) and histories up to 1500 ops")
     ck.coverage["partial"] = "Rc sharing is modelled at value level (persistence by construction); see DESIGN.md C17 T1"
-    ck.trusted += ["extraction: ExtrOcamlBasic only", "harness bin c17", "generator checks/c17.py (SplitMix64, VERIF_SEED)"]
+    ck.trusted += ["extraction: ExtrOcamlBasic only", "harness bin c17 (reads Rust trees through derived Debug)", "generator checks/c17.py (SplitMix64, VERIF_SEED)"]
     ck.assumptions += ["imbl-sized-chunks Chunk behaves as a bounded Vec", "value-level model of Rc/make_mut"]
+    st = ck.stats
+    ck.log("distribution: B=%s profiles=%s" % (st.get("B"), st.get("profile")))
+    ck.log("max height reached: " + ", ".join("%s=%s" % (k[-3:].strip("_"), dict(sorted(v.items()))) for k, v in sorted(st.items()) if k.startswith("max_height")))
+    ck.log("structural events (count): %s" % dict(sorted(st.get("structural_events", {}).items())))
+    ck.log("direct-oracle handle checks: %s, histories with a panic: %s" % (st.get("direct_oracle_handle_checks"), st.get("histories_with_out_of_contract_op")))
 
 
 def replay(ck, path):
     import json
-    obj = json.load(open(path))
+    if path.endswith(".case"):
+        cases = [l.strip() for l in open(path) if l.strip() and not l.startswith("#")]
+    else:
+        obj = json.load(open(path))
+        cases = [obj["case"]] if "case" in obj else []
     ok = ck.harness(["c17"])
     exe_model = ck.model("C17.v")
-    if ok and exe_model and "case" in obj:
-        run_cases(ck, [obj["case"]], core.harness_bin("c17"), exe_model)
+    if ok and exe_model and cases:
+        run_cases(ck, cases, core.harness_bin("c17"), exe_model)
